@@ -1,6 +1,7 @@
 import Crd.Lemmas.GrammarTie2
 import Crd.Lemmas.ParserComplete2
 import Crd.Lemmas.LexTotal
+import Crd.Lemmas.LexFaithful
 
 /-!
 # C04 — the accepted chord language is exactly the documented grammar; trees faithful
@@ -121,6 +122,12 @@ theorem never_crashes (s : List Char) : ∀ site, parseTextChars s ≠ .error (.
   | hang ts => exact absurd hl (lex_total s ts)
   | err ts => simp
   | ok ts => cases hp : parseToks ts <;> simp [hp]
+
+/-- **every character of the text is accounted for** ("as written", "no suffix is ever silently dropped", at the level
+of characters): when the lexer ends silently with the tokens `ts`, the text is exactly those tokens' own characters, in
+order, with nothing but white space and `;` comments before, between and after them -/
+theorem text_is_tokens_and_trivia (s : List Char) (ts : List Tok) (h : lexChars s = .ok ts) : ∃ gaps, Weave gaps ts s :=
+  lex_faithful s ts h
 
 /-! non-vacuity -/
 example : (parseTextChars "C#m7b5[1] ;c\n Bb_7/D[1/4,2]{txt=hi there,key=Am}".toList).toOption.map (·.length) = some 2 := by decide
